@@ -136,14 +136,14 @@ def run(ctx: Ctx):
     fr = it.run_function(fi)
     ret = nf.strip(fr.ret)
     ok, why = False, "length is not (coords.gather(1, rec) - coords).norm(p=2, dim=2).sum(1)"
-    if ret.op == "meth" and ret.args[1] == "sum" and vg.is_const(ret.args[2], 1):
+    if ret.op == "meth" and ret.args[1] == "sum" and nf.axis_is(ret, 1):
         nrm = nf.strip(ret.args[0])
         if nrm.op == "meth" and nrm.args[1] == "norm":
             d = nf.poly(nrm.args[0])
             mon = d.monos()
             gathered = [a for c, fs in mon for a, _ in fs if a.op == "meth" and a.args[1] == "gather" and "rec" in vg.params_of(a)]
             plain = [a for c, fs in mon for a, _ in fs if a.op == "param" and a.args[0] == "coordinates"]
-            dims = [x.args[1] for x in nrm.args[2:] if x.op == "kw" and x.args[0] == "dim"]
+            dims = [x.args[1] for x in nrm.args[2:] if x.op == "kw" and x.args[0] == "dim"] or [x for x in nrm.args[2:] if x.op == "const" and isinstance(x.args[0], int)][1:2]
             ok = len(mon) == 2 and bool(gathered) and bool(plain) and dims and vg.is_const(dims[0], 2) and vg.is_const(gathered[0].args[2], 1)
             why = f"sum over nodes of |coords[rec[i]] - coords[i]| : {ok}"
     ctx.ob("C09.c", "ImprovementEnvBase.get_costs", ok, fi.loc, why, construct="ImprovementEnvBase.get_costs:definition")
